@@ -81,7 +81,7 @@ def run(ctx):
     common.import_spowtd()
     warnings.simplefilter("ignore")
     rng = ctx.rng
-    n = 3 if ctx.tier == "quick" else 40
+    n = 5 if ctx.tier == "quick" else 40
     ob_files = "six generated PEST files = model (Model/Pest.lean) line by line"
     ob_ins = "instruction file run on the real simulate output (model runIns) returns the simulator's own vector"
     for d_i in range(n):
@@ -98,8 +98,10 @@ def run(ctx):
         rise_vals = [r[1] for r in rise_view]
         rec_vals = [r[1] / 86400.0 for r in rec_view]
         levels = [r[0] for r in rise_view] + [r[0] for r in rec_view]
+        rec_levels = [r[0] for r in rec_view] or tr.level
         for params in (sim.spline_params(rng, min(tr.level), max(tr.level)),
-                       sim.spline_params(rng, min(tr.level), max(tr.level), n_sy=rng.randint(6, 9), oscillating=True),
+                       # specific yield going negative inside the range of the recession curve itself
+                       sim.spline_params(rng, min(rec_levels), max(rec_levels) + 1.0, n_sy=rng.randint(6, 9), oscillating=True),
                        sim.peatclsm_params(rng, max(tr.level))):
             inp = {"truth": tr.describe(), "zeta_step": zstep, "parameters": params}
             ctx.case(("c19", tr.describe(), str(params)), True)
